@@ -77,7 +77,10 @@ def run(tier, seed):
     if tie.mismatches and not R.violations:
         why = tie.diagnose()
         R.violation('correspondence-broken', 'Rust checker and coq/ML model (guards_sound) disagree; no invalid Proved term found',
-                    {'no_failing_input_found': True, 'theorem_or_correspondence': 'correspondence rust/src/lib.rs <-> coq/ML/Machine.v (guards_sound)',
+                    {'no_failing_input_found': True,
+                     'theorem_or_correspondence': 'correspondence rust/src/lib.rs <-> coq/ML/Machine.v (guards_sound)'
+                     + ('' if P['ok'] else '; proof stage also broken (translated source no longer equals the model: ML/GenExec.v / ML/GenAgree.v): '
+                        + P['log'][-600:]),
                      'implementation_behaves_like_model_without_guard': why,
                      'first_mismatches': [dict(request=a, model=b, rust=c, label=d) for a, b, c, d in tie.mismatches[:5]]})
     elif tie.mismatches:
@@ -96,7 +99,7 @@ def run(tier, seed):
     R.assumptions = ['validity = truth in every model under every semantic valuation of opaque nodes (metavariables, general-plug ESubst) '
                      'respecting their judged freshness; the finite-model search uses constant atoms']
     return R.finish(trusted_base=C.TRUSTED_COMMON + [
-        'translators/rust_judge.py, rust_subst.py, opcodes.py (Rust-subset readers that regenerate coq/Gen/*.v from lib.rs every run; fail closed)',
+        'translators/rust_judge.py, rust_subst.py, rust_inst.py, rust_exec.py, opcodes.py (Rust-subset readers that regenerate coq/Gen/*.v from lib.rs every run — judgements, substitutions, instantiate, and statement by statement execute_instructions + verify; fail closed)',
         'Axiom Classical_Prop.classic (Coq standard library; used only for Prop3, double-negation elimination over sets D -> Prop)',
         'harness/rust/harness.rs (appended to a scratch copy of lib.rs: request parser and state printer) and harness/rust/main.rs',
         'semantics: coq/ML/Sem.v is the standard matching-logic semantics written by hand (eval); metavariables as semantic atoms'])
